@@ -2,7 +2,7 @@
    is a function of (operator, input) only.  Non-mutation is a run-time fact about aliasing and is
    decided by the byte-snapshot sweep of props/C02.py (see DESIGN.md). *)
 From Coq Require Import ZArith List Bool.
-From SV Require Import lib.Scalar lib.BigSum lib.Gather model.Rearrange model.Linop proofs.LinopTheory proofs.LinopAlgebra.
+From SV Require Import lib.Scalar lib.BigSum lib.Gather lib.LoopIR model.Rearrange model.Block model.Linop proofs.LinopTheory proofs.LinopAlgebra proofs.LinopStack proofs.LinopLinear.
 Import ListNotations.
 Local Open Scope Z_scope.
 
@@ -38,3 +38,43 @@ Theorem C02_conj_of_linear_is_linear :
   forall (R : StarRing) F, linear R F -> linear R (fun x o => conj (F (fun i => conj (x i)) o)).
 Proof. exact linear_conj. Qed.
 Print Assumptions C02_conj_of_linear_is_linear.
+
+(* ---- EVERY operator expression is linear: all leaf classes, all combinators, the generated loop nests (proofs/LinopLinear.v) ---- *)
+(* ---------- Prop_C02 additions ---------- *)
+Theorem C02_every_operator_is_linear :
+  forall (R : StarRing) arr scal orc,
+    (forall L, library_backed L = true -> linear R (orc L)) ->
+    forall A, linear R (D R arr scal orc A).
+Proof. exact linear_every_tree. Qed.
+
+Theorem C02_every_leaf_is_linear :
+  forall (R : StarRing) arr scal orc L,
+    is_comb L = false -> (library_backed L = true -> linear R (orc L)) -> linear R (D R arr scal orc L).
+Proof. exact linear_leaf. Qed.
+
+Theorem C02_no_library_tree_is_linear :
+  forall (R : StarRing) arr scal orc A, no_library A = true -> linear R (D R arr scal orc A).
+Proof. exact linear_no_library. Qed.
+
+Theorem C02_stacks_are_linear :
+  forall (R : StarRing) arr scal orc ls,
+    Forall (fun A => linear R (D R arr scal orc A)) ls ->
+    (forall ax, linear R (D R arr scal orc (Hstack ls ax))) /\
+    (forall ax, linear R (D R arr scal orc (Vstack ls ax))) /\
+    (forall oa ia, linear R (D R arr scal orc (Diag ls oa ia))).
+Proof.
+  intros R arr scal orc ls H. split; [|split]; intros;
+    [apply linear_hstack | apply linear_vstack | apply linear_diag]; exact H.
+Qed.
+
+Theorem C02_loop_nests_are_linear :
+  forall (R : StarRing) (a : R) n12 n1 n2, nest_lin R a n12 n1 n2 ->
+    forall e (out12 out1 out2 : list Z -> R),
+      (forall o, out12 o = add (mul a (out1 o)) (out2 o)) ->
+      forall o, exec n12 e out12 o = add (mul a (exec n1 e out1 o)) (exec n2 e out2 o).
+Proof. exact exec_linear. Qed.
+Print Assumptions C02_every_operator_is_linear.
+Print Assumptions C02_every_leaf_is_linear.
+Print Assumptions C02_no_library_tree_is_linear.
+Print Assumptions C02_stacks_are_linear.
+Print Assumptions C02_loop_nests_are_linear.
